@@ -123,7 +123,9 @@ def Step.enabled [DecidableEq R] (s : St R) : Step R → Bool
   | .pluginAlloc n _ => covered s.wal n
   | .createProcessing n _ => pendingProc s.wal n
   | .addWorkload id n _ => pendingCreated s.wal id && covered s.wal n && !recorded s id
-  | .commitCreated id _ => !recorded s id || runningCt s id
+  -- the deferred commit of doDeployOneWorkload runs after its transaction: the instance is then
+  -- fully created (recorded and started) or, after a rollback, neither recorded nor in the engine
+  | .commitCreated id _ => (recorded s id && runningCt s id) || (!recorded s id && !hasCt s id)
   | .commitProcessing n => s.markers.all (fun m => m.1 != n)
   | .commitAlloc ns => ns.all (fun n => decide (s.usage n = load s n))
   | _ => true
